@@ -623,3 +623,83 @@ def c18(tier):
 
 
 CHECKS.update({"C14": c14, "C17": c17, "C18": c18})
+
+
+# ----------------------------------------------------------------------- C13
+
+def c13(tier):
+    t0 = time.time()
+    wd = core.workdir("C13")
+    q = tier == "quick"
+    # 1. design level: exhaustive exploration of the vector model
+    mc1 = mc_run("MC_Vec", "MC_Vec", "C13-mc-stack")
+    mc2 = mc_run("MC_Vec", "MC_VecHeap", "C13-mc-heap")
+    violations = []
+    stats = {}
+    total_events = 0
+    samples = []
+    trace_states = trace_trans = 0
+    for backend, cfg, gencfg, cfcfg in (("stack", "std", "GenVec", "CF_Vec"), ("heap", "std+alloc", "GenVecHeap", "CF_VecHeap")):
+        bindir = core.build_harness(cfg, bins=["run_vec"])
+        # 2. spec -> impl: TLC-generated histories replayed into the real vector
+        nh = 100 if q else 4000
+        sim = core.tlc(os.path.join(core.SPEC, "cf", "GenVec.tla"), os.path.join(core.SPEC, "cf", gencfg + ".cfg"),
+                       "C13-gen-" + backend, coverage=False, cont=False, workers=1, timeout=3000,
+                       simulate=("num=%d" % nh, 45), seed_arg=core.seed() % 100000 + 1)
+        hists = [p for p in sim.prints if isinstance(p, dict) and "events" in p]
+        if len(hists) < nh:
+            raise core.ToolError("GenVec produced %d of %d histories" % (len(hists), nh))
+        for k, h in enumerate(hists):
+            h["id"] = k + 1
+        hp = os.path.join(wd, "gen-%s.ndjson" % backend)
+        core.write_ndjson(hp, hists)
+        rp = os.path.join(wd, "replay-%s.ndjson" % backend)
+        core.run([os.path.join(bindir, "run_vec"), "--mode", "replay", "--in", hp, "--out", rp], timeout=900)
+        rep = core.read_ndjson(rp)
+        bad = [r for r in rep if not r["ok"]]
+        for r in bad:
+            violations.append(core.write_replay("C13", {"property": "C13", "direction": "spec->impl", "backend": backend,
+                                                        "history": hists[r["id"] - 1], "mismatch": r}))
+        # 3. impl -> spec: histories recorded from a seeded random driver, validated by the trace specification
+        nr = 100 if q else 10000
+        recp = os.path.join(wd, "rec-%s.ndjson" % backend)
+        core.run([os.path.join(bindir, "run_vec"), "--mode", "record", "--out", recp, "--seed", str(core.seed()),
+                  "--histories", str(nr), "--ops", "60"], timeout=900)
+        res = core.tlc(os.path.join(core.SPEC, "cf", "CF_Vec.tla"), os.path.join(core.SPEC, "cf", cfcfg + ".cfg"),
+                       "C13-cf-" + backend, env={"VERIF_RECORDS": recp}, coverage=False, timeout=3000)
+        verd = {p["id"]: p for p in res.prints if isinstance(p, dict) and "id" in p}
+        if core.tlc_fatal(res) or len(verd) != nr:
+            raise core.ToolError("CF_Vec did not decide every history (%d of %d): %s" % (len(verd), nr, core.tlc_fatal(res)[:2]))
+        recs = core.read_ndjson(recp)
+        for hid, v in verd.items():
+            if v["verdict"] != "ok":
+                violations.append(core.write_replay("C13", {"property": "C13", "direction": "impl->spec", "backend": backend,
+                                                            "history": recs[hid - 1], "rejected": v}))
+        ops = collections.Counter(e["op"] + ":" + e["r"] for h in recs for e in h["events"])
+        gops = collections.Counter(e["op"] + ":" + e["r"] for h in hists for e in h["events"])
+        nev = sum(len(h["events"]) for h in recs) + sum(len(h["events"]) for h in hists)
+        total_events += nev
+        trace_states += res.distinct
+        trace_trans += res.generated
+        stats[backend] = {"generated_histories_replayed": len(hists), "recorded_histories_validated": nr, "events": nev,
+                          "recorded_ops": dict(ops), "generated_ops": dict(gops),
+                          "max_len_seen": max(e["len"] for h in recs + hists for e in h["events"])}
+        samples.append({"backend": backend, "first_events": [{k: e[k] for k in ("op", "r", "len")} for e in recs[1]["events"][:12]]})
+    cov = {
+        "states": mc1.distinct + mc2.distinct + trace_states, "transitions": mc1.generated + mc2.generated + trace_trans,
+        "traces_validated_against_impl": sum(s["generated_histories_replayed"] + s["recorded_histories_validated"] for s in stats.values()),
+        "evaluations": total_events, "distinct_nontrivial": total_events,
+        "rule": "MC_Vec explores the vector model exhaustively (2-bit limbs, CAP 3 stack / bounded heap, every operation x every "
+                "argument; each transition asserted against the sequence contract and numeric meaning); histories of 40 operations "
+                "generated from the specification by TLC simulation are replayed into the real StackVec and HeapVec comparing result, "
+                "length and contents after every step; histories of 60 operations recorded from a seeded random driver are validated "
+                "by the CF_Vec trace specification (LBITS 64, CAP 62)",
+        "samples": samples, "mc_states": {"stack": mc1.distinct, "heap": mc2.distinct},
+        "mc_transitions": {"stack": mc1.generated, "heap": mc2.generated}, "backends": stats, "exhaustive": False,
+    }
+    core.write_evidence("C13", tier, "model_checking", cov, time.time() - t0, len(violations),
+                        assumptions=["safe API only; ordering / hi64 judged on normalised operands (the domain the property names)"])
+    core.finish("C13", violations, [])
+
+
+CHECKS["C13"] = c13
